@@ -30,7 +30,7 @@ META = {
 
 TRANSLATIONS = [1000.0, -37.5, float(2 ** 20)]
 SCALES = [3.0, 0.125, 1024.0]
-FACTORS = [4.0, 0.25]
+FACTORS = [4.0, 0.25, 1.3]
 
 
 def recipes_for(labels, idx):
